@@ -345,6 +345,19 @@ def link(draw, blocks, label_pool, allow_replace=True, allow_atype_sel=True, pre
             atoms[key]["replace"] = {"atype": draw(st.sampled_from(["TR1", "TR2"]))}
         else:
             atoms[key]["replace"] = {"charge": draw(st.sampled_from(CHARGES))}
+    if (edges or any("replace" in v for v in atoms.values())) and draw(st.integers(0, 3)) == 0:
+        # a link that only replaces attributes and/or lists [ edges ]: no interaction line at all. Its residues
+        # must then be held together by the listed edges.
+        comp = {split_order(k): split_order(k) for k in atoms}
+
+        def find(x):
+            while comp[x] != x:
+                x = comp[x]
+            return x
+        for a, b, _ in edges:
+            comp[find(split_order(a))] = find(split_order(b))
+        if len({find(x) for x in comp}) == 1:
+            inter = []
     return {"resname": "|".join(link_resnames),
             "atoms": [{"key": k, "attrs": v} for k, v in atoms.items()],
             "inter": inter, "edges": edges, "non_edges": non_edges, "patterns": patterns}
@@ -516,7 +529,8 @@ def case(draw, with_links=True, max_res=8, mixed_nrexcl=False, routes=("json", "
             files.append({"kind": "itp", "blocks": [i], "links": [], "mods": []})
     files = list(draw(st.permutations(files)))
     explicit = []
-    if explicit_links and route == "json" and draw(st.integers(0, 1)) == 0:
+    one_link = False
+    if explicit_links and route == "json" and (explicit_links == "adjacent" or draw(st.integers(0, 1)) == 0):
         # links that name atoms by their number in the final molecule ([ molmeta ] by_atom_id true):
         # a bond between atoms of two residues that are not neighbours in the residue graph, so that no
         # other definition can own the same atom pair
@@ -530,8 +544,13 @@ def case(draw, with_links=True, max_res=8, mixed_nrexcl=False, routes=("json", "
         far = [(a["id"], b["id"]) for i, a in enumerate(nodes) for b in nodes[i + 1:]
                if frozenset((a["id"], b["id"])) not in adjacent]
         has_removal = any(at["attrs"].get("replace", {}).get("atomname", 0) is None for l in links for at in l["atoms"])
+        if explicit_links == "adjacent" and not links:
+            # without any other link the numbered bonds may also join neighbouring residues; all of them are
+            # listed in one [ link ]
+            far = [(a["id"], b["id"]) for i, a in enumerate(nodes) for b in nodes[i + 1:]]
+            one_link = True
         if far and not has_removal:
-            for (u, v) in draw(st.lists(st.sampled_from(far), min_size=1, max_size=2, unique=True)):
+            for (u, v) in draw(st.lists(st.sampled_from(far), min_size=1, max_size=4 if one_link else 2, unique=True)):
                 nu = len(by_name[[n for n in nodes if n["id"] == u][0]["resname"]]["atoms"])
                 nv = len(by_name[[n for n in nodes if n["id"] == v][0]["resname"]]["atoms"])
                 a = first[u] + draw(st.integers(0, nu - 1))
@@ -539,7 +558,8 @@ def case(draw, with_links=True, max_res=8, mixed_nrexcl=False, routes=("json", "
                 pair = [a, b] if draw(st.booleans()) else [b, a]
                 explicit.append({"sec": "bonds", "atoms": pair, "params": ["1", _param(draw), _param(draw)]})
     return {"rng": draw(st.integers(0, 2**31 - 1)), "name": "mol", "blocks": blocks, "links": links,
-            "mods": [], "files": files, "graph": graph, "route": route, "mods_cli": [], "explicit": explicit}
+            "mods": [], "files": files, "graph": graph, "route": route, "mods_cli": [], "explicit": explicit,
+            "explicit_one_link": one_link}
 
 
 # ----------------------------------------------------------------------------
@@ -688,7 +708,10 @@ def write_inputs(spec, directory):
         inpaths.append(path)
     if spec.get("explicit"):
         lines = []
-        for it in spec["explicit"]:
+        if spec.get("explicit_one_link"):
+            lines += ["[ link ]", "[ molmeta ]", "by_atom_id true", f"[ {spec['explicit'][0]['sec']} ]"]
+            lines += [" ".join([str(a) for a in it["atoms"]] + it["params"]) for it in spec["explicit"]] + [""]
+        for it in ([] if spec.get("explicit_one_link") else spec["explicit"]):
             lines += ["[ link ]", "[ molmeta ]", "by_atom_id true", f"[ {it['sec']} ]",
                       " ".join([str(a) for a in it["atoms"]] + it["params"]), ""]
         path = directory / "explicit.ff"
